@@ -174,10 +174,17 @@ func c04(run *core.Run, replay string) {
 		{"TEXT+UTF+EXE+PACK+MM+ROLZ", "NONE", 32768, false}, {"TEXT+UTF+BWT+RANK+ZRLT", "ANS0", 16384, false}, {"ROLZX", "FPAQ", 16384, false},
 		{"EXE+RLT+TEXT+UTF+DNA", "TPAQ", 8192, true}, {"LZP+TEXT+UTF+BWT+LZP", "CM", 8192, true}, {"DNA+LZ", "HUFFMAN", 4096, false}, {"MM+SRT", "RANGE", 8192, false},
 	}
+	// every transform on its own and the chains that end in / start with the run-length stages, on inputs whose tail block is incompressible
+	single := len(cfgs)
+	for _, t := range kz.Transforms[1:] {
+		cfgs = append(cfgs, cf{t, "NONE", 16384, false})
+	}
+	cfgs = append(cfgs, cf{"BWT+RANK+ZRLT", "ANS0", 16384, false}, cf{"RLT+ZRLT", "HUFFMAN", 16384, false}, cf{"ZRLT+LZ", "NONE", 32768, false})
 	mixes := [][]string{
 		{"dna", "text", "numeric", "text", "random", "text", "text", "dna"},
 		{"elfx86", "text", "cyrillic", "wav", "text", "base64", "runs", "magicmix", "utf8dirty", "html"},
 		{"text"},
+		{"random", "text", "zeros", "random", "html", "random"},
 	}
 	jobs := []uint{2, 3, 4, 8, 16, 64}
 	parts := [][]int{nil, {1}, {7, 4093, 13, 100003}, {-1}} // -1 => block aligned
@@ -188,7 +195,13 @@ func c04(run *core.Run, replay string) {
 			if mi == 2 && ci%3 != 0 {
 				continue
 			}
+			if ci >= single && mi != 3 && mi != 0 {
+				continue
+			}
 			nb := []int{9, 17, 25}[(ci+mi)%3]
+			if mi == 3 {
+				nb = []int{7, 13}[ci%2] // the partial last block is a "random" one
+			}
 			if c.heavy {
 				nb = 7
 			}
@@ -202,6 +215,12 @@ func c04(run *core.Run, replay string) {
 						w = []int{int(c.bs)}
 					}
 					nsched := run.Pick(3, 12)
+					if ci >= single {
+						nsched = run.Pick(2, 6)
+						if pi%2 == 1 {
+							continue
+						}
+					}
 					if c.heavy {
 						nsched = run.Pick(1, 4)
 					}
